@@ -5,16 +5,23 @@ Two coalescing layers, each proved to preserve the fold for EVERY interleaving o
 * agent (`EventQueue<K, ()>` + `to_operation`: key-only queue, value read when the event is written, specification
   level): `Proofs/AgentMapQueue.lean`.
 The index bookkeeping (`head_epoch`, `epoch_map`, arithmetic mod 2^64) of both real queues is modelled faithfully in
-`Model/EpochQueue.lean`; that it equals the specification queue is re-checked by the driver on every step of every
-generated stream (including `head_epoch` seeded just below 2^64) and against the real queues; as a theorem it is
-kept open below.
+`Model/EpochQueue.lean`; that it equals the specification queue is a theorem below (`C02_epoch_queue_*`, for every
+run in which fewer than 2^64 - 1 entries are queued — with 2^64 entries the epochs of positions 0 and 2^64 collide), and
+is additionally re-checked by the driver on every step of every generated stream (including `head_epoch` seeded just
+below 2^64) and against the real queues.
 -/
 import SwimVerif.Proofs.AgentMapQueue
 import SwimVerif.Model.EpochQueue
 import SwimVerif.Model.MapLane
+import SwimVerif.Proofs.EpochQueueRun
+import SwimVerif.Proofs.MapLaneTakeDrop
+import SwimVerif.Proofs.MapCompose
+import SwimVerif.Proofs.EpochQueueCompose
+import SwimVerif.Proofs.MapLaneAgent
 
 set_option linter.unusedVariables false
 namespace SwimVerif.WT
+open SwimVerif
 
 /-- **Runtime coalescing preserves the fold**: for every interleaving of pushes and pops (starting from any base
 map), applying what has been popped and then what is still queued gives the map obtained by applying everything that
@@ -49,23 +56,186 @@ theorem C02_agent_queue_invariant (ops : List AOp) : AInv (aRun {} ops) := ainv_
 theorem C02_push_is_append_up_to_fold (m : KMap) (q : List MapOp) (op : MapOp) (h : WFQ q) :
     applyAll m (mqPush q op) = applyAll m (q ++ [op]) := applyAll_mqPush m q op h
 
-/-! Open statements (tied by correspondence + monitors) -/
+/-! ### The indexed queue with wrapping 64-bit epochs refines the specification queue
 
-/-- the index bookkeeping with wrapping epochs implements the specification queue -/
-def C02_epoch_queue_refines_spec_open : Prop :=
-  ∀ (q : EQV.Q) (a : EQV.Entry), q.invOk = true → q.events.length + 1 < EQV.M64 →
-    (q.push a).events = EQV.specPush q.events a ∧ (q.push a).invOk = true
+`EQV.Q` (`events`, `head_epoch`, `epoch_map`, arithmetic mod 2^64) is the faithful model of both real queues; the
+driver executes `invOk` and `events = spec` on every step. Here that is a theorem, for every run. The Boolean `invOk`
+is equivalent to the Prop-level `EQV.Inv` (`Proofs/EpochQueue.lean`), in which the proofs are done. -/
 
-/-- take / drop remove exactly the keys designated by the key order, for both map backings -/
-def C02_take_drop_spec_open : Prop :=
-  ∀ (ops : List ML.Op) (n : Nat),
-    (ML.step (ML.run {} ops) (.dropFirst n)).1.content = (ML.run {} ops).content.drop n ∧
-    (ML.step (ML.run {} ops) (.takeFirst n)).1.content = (ML.run {} ops).content.take n
+/-- the executable index invariant (run by the driver) is the Prop-level one used in the proofs -/
+theorem C02_epoch_queue_invOk_iff_inv (q : EQV.Q) : q.invOk = true ↔ EQV.Inv q := EQV.invOk_iff_inv q
+
+/-- the index bookkeeping with wrapping epochs implements the specification queue: `push` -/
+theorem C02_epoch_queue_refines_spec :
+    ∀ (q : EQV.Q) (a : EQV.Entry), q.invOk = true → q.events.length + 1 < EQV.M64 →
+      (q.push a).events = EQV.specPush q.events a ∧ (q.push a).invOk = true := by
+  intro q a h hlen
+  have := EQV.push_refines ((EQV.invOk_iff_inv q).mp h) (by omega) a
+  exact ⟨this.1, (EQV.invOk_iff_inv _).mpr this.2⟩
+
+/-- the empty queue satisfies the index invariant whatever `head_epoch` it starts from (in particular just below
+2^64, as the hook constructor seeds it) -/
+theorem C02_epoch_queue_empty_inv (h : Nat) (hh : h < EQV.M64) : ({ head := h } : EQV.Q).invOk = true :=
+  (EQV.invOk_iff_inv _).mpr (EQV.inv_empty hh)
+
+/-- `pop` returns the head of the specification queue, leaves its tail, and preserves the index invariant — also
+when `head_epoch` wraps from 2^64 - 1 to 0 -/
+theorem C02_epoch_queue_pop_refines (q : EQV.Q) (h : q.invOk = true) (hlen : q.events.length ≤ EQV.M64) :
+    q.pop.1 = q.events.head? ∧ q.pop.2.events = q.events.tail ∧ q.pop.2.invOk = true := by
+  have := EQV.pop_refines ((EQV.invOk_iff_inv q).mp h) hlen
+  exact ⟨this.1, this.2.1, (EQV.invOk_iff_inv _).mpr this.2.2⟩
+
+/-- **Refinement along every run.** From the empty queue with any `head_epoch < 2^64`, after every prefix of every
+sequence of `push` / `pop` during which the (specification) queue never holds 2^64 - 1 entries, the index invariant
+holds, the indexed queue holds exactly the specification queue, and the next `pop` would return the head of the
+specification queue. -/
+theorem C02_epoch_queue_run_refines (h : Nat) (hh : h < EQV.M64) (ops : List EQV.Op)
+    (hb : ∀ n, (EQV.specRun [] (ops.take n)).length + 1 < EQV.M64) (m : Nat) :
+    (EQV.runQ { head := h } (ops.take m)).invOk = true ∧
+    (EQV.runQ { head := h } (ops.take m)).events = EQV.specRun [] (ops.take m) ∧
+    (EQV.runQ { head := h } (ops.take m)).pop.1 = (EQV.specRun [] (ops.take m)).head? := by
+  have := EQV.run_refines (ops.take m) { head := h } (EQV.inv_empty hh) (by
+    intro n; rw [List.take_take]; exact hb _)
+  refine ⟨(EQV.invOk_iff_inv _).mpr this.1, this.2, ?_⟩
+  rw [EQV.pop_fst, this.2]
+
+/-- a purely syntactic sufficient bound: fewer than 2^64 - 1 operations -/
+theorem C02_epoch_queue_run_refines_short (h : Nat) (hh : h < EQV.M64) (ops : List EQV.Op)
+    (hlen : ops.length + 1 < EQV.M64) :
+    (EQV.runQ { head := h } ops).invOk = true ∧ (EQV.runQ { head := h } ops).events = EQV.specRun [] ops := by
+  have := EQV.run_refines_of_short ops { head := h } (EQV.inv_empty hh) (by simpa using hlen)
+  exact ⟨(EQV.invOk_iff_inv _).mpr this.1, this.2⟩
+
+/-! ### Map lane `Drop(n)` / `Take(n)` -/
+
+/-- the lane's map stays strictly sorted by key along every run (the order `sync` and take/drop use) -/
+theorem C02_map_sorted (ops : List ML.Op) : ML.KeySorted (ML.run {} ops).content :=
+  ML.keySorted_run ops {} ML.keySorted_nil
+
+/-- take / drop remove exactly the keys designated by the key order -/
+theorem C02_take_drop_spec :
+    ∀ (ops : List ML.Op) (n : Nat),
+      (ML.step (ML.run {} ops) (.dropFirst n)).1.content = (ML.run {} ops).content.drop n ∧
+      (ML.step (ML.run {} ops) (.takeFirst n)).1.content = (ML.run {} ops).content.take n :=
+  fun ops n => ⟨ML.dropFirst_content _ n (C02_map_sorted ops), ML.takeFirst_content _ n (C02_map_sorted ops)⟩
+
+/-! ### Second tier: per-key sampling, both indexed queues against the specification queue, composition -/
+
+/-- **Per-key sampling (runtime queue)**: for every key `k` and every interleaving of pushes and pops, the operations
+that concern `k` (updates / removes of `k`, and every `clear`) that were popped, followed by those still queued, are a
+sub-sequence of those pushed: nothing is duplicated, reordered or invented; only superseded operations are skipped.
+With `C02_runtime_queue_preserves_fold` (the final state is never skipped) the values a remote sees for `k` are a
+monotone sampling of `k`'s history. -/
+theorem C02_runtime_per_key_sampled (ops : List MQOp) (k : Nat) :
+    ((mqRun {} ops).popped.filter (touches k) ++ (mqRun {} ops).queue.filter (touches k)).Sublist
+      ((mqRun {} ops).pushed.filter (touches k)) :=
+  sampled_run k ops {} wfq_nil (sampled_init k)
+
+/-- **The runtime's indexed queue is the specification queue**: the faithful model of `MapOperationQueue` (wrapping
+epochs, any initial `head_epoch`), together with everything pushed into it and popped from it, is — entry for entry —
+the specification system `mqRun` on which the convergence theorems are proved. -/
+theorem C02_runtime_indexed_queue_refines (h : Nat) (hh : h < EQV.M64) (ops : List EQV.Op)
+    (hb : ∀ n, (EQV.specRun [] (ops.take n)).length + 1 < EQV.M64) :
+    EQV.abs EQV.entryOp (EQV.sysRun { q := { head := h } } ops) = mqRun {} (ops.map (EQV.opMap EQV.entryOp)) :=
+  EQV.sys_run_refines EQV.entryOp EQV.entryOp_key rfl ops { q := { head := h } } (EQV.inv_empty hh) hb
+
+/-- …hence the indexed runtime queue itself preserves the fold and samples every key monotonically. -/
+theorem C02_runtime_indexed_queue_preserves_fold (h : Nat) (hh : h < EQV.M64) (ops : List EQV.Op)
+    (hb : ∀ n, (EQV.specRun [] (ops.take n)).length + 1 < EQV.M64) (m : KMap) (k : Nat) :
+    let s := EQV.sysRun { q := { head := h } } ops
+    applyAll m (s.popped.map EQV.entryOp ++ s.q.events.map EQV.entryOp) = applyAll m (s.pushed.map EQV.entryOp) ∧
+    ((s.popped.map EQV.entryOp).filter (touches k) ++ (s.q.events.map EQV.entryOp).filter (touches k)).Sublist
+      ((s.pushed.map EQV.entryOp).filter (touches k)) := by
+  intro s
+  have hr := C02_runtime_indexed_queue_refines h hh ops hb
+  have h1 := C02_runtime_queue_preserves_fold m (ops.map (EQV.opMap EQV.entryOp))
+  have h2 := C02_runtime_per_key_sampled (ops.map (EQV.opMap EQV.entryOp)) k
+  rw [← hr] at h1 h2
+  exact ⟨h1, h2⟩
+
+/-- **The agent's indexed event queue is the specification queue** on key-only operations (`EventQueue<K, ()>` as
+modelled inside `Model/MapLane.lean`), for every run of fewer than 2^64 - 1 operations. -/
+theorem C02_agent_indexed_queue_refines (ops : List ML.EQOp) (hlen : ops.length + 1 < EQV.M64) :
+    ML.absA (ML.eqRun {} ops) = mqRun {} (ops.map ML.opA) := ML.agent_run_refines ops hlen
+
+/-- **Composition of the two layers**: the agent's key-only event queue (values read when an event is written)
+feeding the runtime's per-remote operation queue feeding the remote. For every interleaving of lane operations, event
+writes and deliveries: whenever both queues are empty, the remote's replica is the lane's map. -/
+theorem C02_compose (ops : List COp) (ha : (cRun {} ops).a.queue = []) (hr : (cRun {} ops).rt.queue = []) :
+    (cRun {} ops).remote = (cRun {} ops).a.content :=
+  cinv_converged (cinv_run ops {} cinv_init) ha hr
+
+/-- …in between, the remote brought up to date with what the runtime still holds for it is the agent-side observer's
+replica (which `C02_agent_queue_invariant` relates to the lane's map), and what the remote has received about any key
+is a sub-sequence of what the agent emitted about it. -/
+theorem C02_compose_invariant (ops : List COp) (k : Nat) :
+    applyAll (cRun {} ops).remote (cRun {} ops).rt.queue = (cRun {} ops).a.rep ∧ AInv (cRun {} ops).a ∧
+    ((cRun {} ops).rt.popped.filter (touches k) ++ (cRun {} ops).rt.queue.filter (touches k)).Sublist
+      ((cRun {} ops).rt.pushed.filter (touches k)) :=
+  ⟨cinv_remote_catches_up (cinv_run ops {} cinv_init), (cinv_run ops {} cinv_init).agent,
+   csampled_run k ops {} cinv_init (sampled_init k)⟩
+
+/-- what the agent emits is current: an emitted update carries the value the lane holds for the key at that moment,
+and a remove is emitted only while the lane's map lacks the key -/
+theorem C02_agent_emits_current (ops : List AOp) (k : Nat) :
+    (∀ v, emitOf (aRun {} ops) = some (.upd k v) → (aRun {} ops).content k = some v) ∧
+    (emitOf (aRun {} ops) = some (.rem k) → (aRun {} ops).content k = none) :=
+  ⟨fun v h => emitOf_upd_current h, fun h => emitOf_rem_absent (C02_agent_queue_invariant ops) h⟩
+
+/-- **The lane model refines the specification agent.** For the faithful lane model of `Model/MapLane.lean` (sorted
+map, indexed event queue with wrapping epochs, `WriteQueues::pop` with the event/sync alternation and pending sync
+requests, the loop skipping vanished keys, take/drop) and every run in which queue and map stay below 2^64 - 1 entries:
+the abstraction (map, key-only queue, fold of the standard events written so far) satisfies the agent invariant
+`AInv` of `C02_agent_queue_invariant` — sync traffic never disturbs it. -/
+theorem C02_lane_refines_agent (ops : List ML.Op) (hb : ∀ n, ML.Small (ML.run {} (ops.take n))) :
+    AInv (ML.absL (ML.run {} ops) (applyAll emptyMap (ML.opsOf (ML.framesOf {} ops)))) :=
+  (ML.linv_run ops {} emptyMap ML.linv_init hb).agent
+
+/-- **…hence the lane model converges**: whenever its event queue is empty, an observer that applied every standard
+event the lane wrote holds exactly the lane's map. -/
+theorem C02_lane_converges (ops : List ML.Op) (hb : ∀ n, ML.Small (ML.run {} (ops.take n)))
+    (hq : (ML.run {} ops).wq.eq.events = []) :
+    applyAll emptyMap (ML.opsOf (ML.framesOf {} ops)) = ML.absContent (ML.run {} ops).content :=
+  ML.lane_converges ops hb hq
 
 /-! Non-vacuity -/
 example : (mqRun {} [.push (.upd 1 [1]), .push (.upd 2 [2]), .push (.upd 1 [3]), .pop]).popped = [.upd 1 [3]] := by
   decide
 example : (mqRun {} [.push (.upd 1 [1]), .push .clear, .push (.upd 2 [2])]).queue = [.clear, .upd 2 [2]] := by decide
 example : (aRun {} [.update 1 [1], .update 1 [2], .remove 1, .pop]).queue = [] := by decide
+
+
+/-! non-vacuity of the epoch-queue theorems: a queue seeded just below 2^64 whose epochs wrap -/
+def exQ : EQV.Q := (({ head := EQV.M64 - 1 } : EQV.Q).push (.upd 1 10)).push (.upd 2 20)
+example : exQ.invOk = true ∧ exQ.events.length + 1 < EQV.M64 ∧ exQ.events.length ≤ EQV.M64 := by decide
+example : exQ.emap = [(1, EQV.M64 - 1), (2, 0)] := by decide
+example : (exQ.push (.upd 2 21)).events = [.upd 1 10, .upd 2 21] ∧ exQ.pop.2.head = 0 ∧
+    (exQ.pop.2.push (.upd 2 22)).events = [.upd 2 22] := by decide
+example : EQV.specRun [] [.push (.upd 1 1), .push (.upd 2 2), .push (.upd 1 3), .pop, .push .clear] = [.clear] := by
+  decide
+example : EQV.abs EQV.entryOp (EQV.sysRun { q := { head := EQV.M64 - 1 } }
+      [.push (.upd 1 1), .push (.upd 2 2), .push (.upd 1 3), .pop]) =
+    { queue := [.upd 2 [2]], pushed := [.upd 1 [1], .upd 2 [2], .upd 1 [3]], popped := [.upd 1 [3]] } := by rfl
+example : ML.absA (ML.eqRun {} [.push (.upd 1), .push (.upd 2), .push (.rem 1), .pop]) =
+    { queue := [.upd 2 []], pushed := [.upd 1 [], .upd 2 [], .rem 1], popped := [.rem 1] } := by rfl
+/-- compose: update, emit, update again (coalesced in the runtime queue), emit, deliver -/
+example : (cRun {} [.lane (.update 1 [1]), .lane .pop, .lane (.update 1 [2]), .lane .pop, .deliver]).rt.popped =
+      [.upd 1 [2]] ∧
+    (cRun {} [.lane (.update 1 [1]), .lane .pop, .lane (.update 1 [2]), .lane .pop, .deliver]).rt.queue = [] ∧
+    (cRun {} [.lane (.update 1 [1]), .lane .pop, .lane (.update 1 [2]), .lane .pop, .deliver]).a.queue = [] := by decide
+example : emitOf (aRun {} [.update 1 [1], .update 1 [2]]) = some (.upd 1 [2]) := by decide
+/-- lane run with a coalesced update, a sync request in between, a drop and a vanished key -/
+def exLane : List ML.Op :=
+  [.update 5 1, .update 2 1, .update 5 3, .sync 7, .write, .write, .write, .write, .write, .dropFirst 1, .update 9 4,
+   .remove 9, .write, .write, .write]
+example : (∀ n, ML.Small (ML.run {} (exLane.take n))) ∧ (ML.run {} exLane).wq.eq.events = [] ∧
+    ML.framesOf {} exLane = [.upd 5 3, .sync 7 2 1, .upd 2 1, .synced 7, .rem 2, .rem 9] ∧
+    (ML.run {} exLane).content = [(5, 3)] :=
+  ⟨ML.small_prefixes exLane (by decide), by decide, by decide, by decide⟩
+/-- take / drop on a non-trivial map -/
+example : (ML.run {} [.update 5 1, .update 2 1, .update 9 1, .update 2 7]).content = [(2, 7), (5, 1), (9, 1)] ∧
+    (ML.step (ML.run {} [.update 5 1, .update 2 1, .update 9 1]) (.dropFirst 2)).1.content = [(9, 1)] ∧
+    (ML.step (ML.run {} [.update 5 1, .update 2 1, .update 9 1]) (.takeFirst 2)).1.content = [(2, 1), (5, 1)] := by
+  decide
 
 end SwimVerif.WT
